@@ -162,6 +162,23 @@ try:
             bad.append(f"vectorised job with a partly warm cache: stored {cdst2['pent']!r}")
 except BaseException as e:
     bad.append(f"vectorised scenario raised {type(e).__name__}: {e}")
+# directory-backed collections: dotted keys are different keys
+try:
+    from molli.storage.backends import DirCollectionBackend
+    dd = os.path.join(d, "dircoll")
+    db = DirCollectionBackend(dd, readonly=False, ext=".dat")
+    with db.writing():
+        for k_, v_ in (("lig.1", b"one"), ("lig.2", b"two"), ("lig", b"zero"), ("sub.7.x", b"seven")):
+            db.put(k_, v_)
+    with db.reading():
+        ks = sorted(db.keys())
+        vals = {k_: db.get(k_) for k_ in ks}
+    if ks != sorted(["lig.1", "lig.2", "lig", "sub.7.x"]) or vals.get("lig.1") != b"one" or vals.get("lig.2") != b"two" or vals.get("lig") != b"zero":
+        bad.append(f"directory-backed collection: keys with dots collide or come back truncated: {vals}")
+    if len({str(db.get_path(k_)) for k_ in ("lig.1", "lig.2", "lig", "sub.7.x")}) != 4:
+        bad.append("directory-backed collection: different keys map to the same file")
+except BaseException as e:
+    bad.append(f"directory-backed collection raised {type(e).__name__}: {e}")
 if bad:
     print("REPRODUCED:", "; ".join(bad[:3]))
     sys.exit(0)
